@@ -90,6 +90,19 @@ func MachineC() *bondmachine.Bondmachine {
 	return b
 }
 
+// MachineD: one processor that executes a peripheral-command opcode (r2v sends a command to the emulation driver
+// dispatcher through the VM's command channel) before it publishes its output.
+func MachineD() *bondmachine.Bondmachine {
+	b := new(bondmachine.Bondmachine)
+	b.Rsize = 8
+	b.Init()
+	b.Domains = append(b.Domains, proc("rset r0 65\nr2v r0 3\nr2owa r0 o0\n", 0, 1))
+	b.Add_processor(0)
+	b.Add_output()
+	b.Add_bond([]string{"o0", "p0o0"})
+	return b
+}
+
 const basmSrc = `%section prog .romtext iomode:async
 	entry _start
 _start:
@@ -115,6 +128,7 @@ const (
 	// MachineB.SinglePipelineSimulate with a per-opcode delay table (as cmd/simfinetune passes): inc takes 3 ticks,
 	// so the counting processor is inside a delay slot when the other one ends the run
 	SpsBDelay = "spsBdelay"
+	SpsD      = "spsD" // MachineD.SinglePipelineSimulate: the program sends a peripheral command
 )
 
 // delayTable is shared by all calls (simfinetune shares one table too); single-valued distributions keep the
@@ -132,6 +146,8 @@ func EntryPoint(kind string) string {
 		return "SinglePipelineSimulate(failing processor)"
 	case SpsBDelay:
 		return "SinglePipelineSimulate(opcode delays)"
+	case SpsD:
+		return "SinglePipelineSimulate(peripheral command)"
 	case FitA, FitB:
 		return "Fitness_default"
 	case Basm:
@@ -141,20 +157,23 @@ func EntryPoint(kind string) string {
 }
 
 // Env holds the (read-only) machines; they are inputs of the simulations, built once.
-type Env struct{ A, B, C *bondmachine.Bondmachine }
+type Env struct{ A, B, C, D *bondmachine.Bondmachine }
 
-func NewEnv() *Env { return &Env{A: MachineA(), B: MachineB(), C: MachineC()} }
+func NewEnv() *Env { return &Env{A: MachineA(), B: MachineB(), C: MachineC(), D: MachineD()} }
 
 // Call performs one single-shot call and returns a rendering of its result.
 func (e *Env) Call(kind string) string {
 	switch kind {
-	case SpsA, SpsB, SpsBErr, SpsC, SpsBDelay:
+	case SpsA, SpsB, SpsBErr, SpsC, SpsBDelay, SpsD:
 		bm := e.A
 		if kind != SpsA {
 			bm = e.B
 		}
 		if kind == SpsC {
 			bm = e.C
+		}
+		if kind == SpsD {
+			bm = e.D
 		}
 		in := []string{"5"}
 		if bm.Inputs == 0 {
@@ -316,7 +335,7 @@ func Enumerate(maxN int) []History {
 			add(History{Callers: [][]string{rep(FitB, n)}})
 		}
 	}
-	for _, s := range [][]string{{SpsA, FitA}, {FitA, SpsA}, {SpsA, Basm}, {Basm, SpsA}, {SpsBErr, SpsA}, {SpsA, SpsBErr}, {SpsC, SpsA}, {SpsA, SpsC}, {SpsBDelay, SpsA}, {SpsA, SpsBDelay}} {
+	for _, s := range [][]string{{SpsA, FitA}, {FitA, SpsA}, {SpsA, Basm}, {Basm, SpsA}, {SpsBErr, SpsA}, {SpsA, SpsBErr}, {SpsC, SpsA}, {SpsA, SpsC}, {SpsBDelay, SpsA}, {SpsA, SpsBDelay}, {SpsD, SpsA}, {SpsA, SpsD}, {SpsD, SpsD}} {
 		add(History{Callers: [][]string{s[:1]}})
 		add(History{Callers: [][]string{s}})
 	}
